@@ -1632,4 +1632,101 @@ theorem noise_int_reads' (sd : List Rat → Rat) (seed lo hi : Int) (rows : List
   rw [fit_reads_fresh']
   rfl
 
+/-! ## Phase 6: what runs when a read is abandoned -/
+
+theorem abandon_table_matches_source' :
+    Generated.abandonRows = abandonTable.map TryRow.tuple ∧
+    (Generated.abandonRows.all (fun t => (TryRow.mk t.1 t.2.1 t.2.2.1 t.2.2.2.1 t.2.2.2.2).silent)) = true ∧
+    cacheExitAct Generated.cacheFillHandlers = .nothing ∧ Generated.cacheFillFinally = false := by
+  refine ⟨by decide, by decide, by decide, rfl⟩
+
+theorem abandon_table_sound' :
+    (∀ r ∈ abandonTable, r.silent = true ∧ r.runsOnAbandon = false) ∧
+    (∀ r ∈ abandonTable, r.kind = "try" → abandonObsAllowed r.file r.fn "header" = true) ∧
+    (∀ r ∈ abandonTable, r.kind = "with" → abandonObsAllowed r.file r.fn "with" = true) ∧
+    (∀ (file fn kind : String), kind ≠ "header" → kind ≠ "with" → abandonObsAllowed file fn kind = false) ∧
+    (∀ (file fn kind : String), (∀ r ∈ abandonTable, r.fn ≠ fn) → abandonObsAllowed file fn kind = false) := by
+  refine ⟨by decide, by decide, by decide, ?_, ?_⟩
+  · intro file fn kind h1 h2
+    simp [abandonObsAllowed, h1, h2]
+  · intro file fn kind h
+    unfold abandonObsAllowed
+    split
+    · rw [List.any_eq_false]
+      intro r hr
+      simp [h r hr]
+    · split
+      · rw [List.any_eq_false]
+        intro r hr
+        simp [h r hr]
+      · rfl
+
+theorem cacheStepX_nothing (sz : Option Nat) (c r : List Item) (d : Demand) :
+    cacheStepX .nothing sz c r d = cacheStep sz c r d := by
+  cases d <;> rfl
+
+/-- with the source's exit action the explicit session IS the cache case of `nodeStep` -/
+theorem cache_session_is_nodeStep' (sz : Option Nat) (prot : Bool) (st : CacheSt) (u : List Item) (d : Demand) :
+    (nodeStep (.cache sz prot st) u d).1 = .cache sz prot (cacheSessX (cacheExitAct Generated.cacheFillHandlers) sz u st d) := by
+  have hx : cacheExitAct Generated.cacheFillHandlers = .nothing := by decide
+  rw [hx]
+  cases d <;> cases st <;> simp [nodeStep, cacheSessX, cacheStepX_nothing]
+
+theorem cacheStepP6_ok (sz : Option Nat) (u c r : List Item) (h : c ++ r = u) (d : Demand) :
+    CacheOK u (cacheStep sz c r d).1 := by
+  cases d with
+  | none => simpa [cacheStep, CacheOK] using h
+  | all => simpa [cacheStep, CacheOK] using h
+  | pull k =>
+    simp only [cacheStep, CacheOK]
+    rw [fill_append]; exact h
+
+theorem cacheStepX_ok (x : ExitAct) (hx : x ≠ .dropIter) (sz : Option Nat) (u c r : List Item) (h : c ++ r = u) (d : Demand) :
+    CacheOK u (cacheStepX x sz c r d).1 := by
+  cases x with
+  | nothing => rw [cacheStepX_nothing]; exact cacheStepP6_ok sz u c r h d
+  | dropIter => exact absurd rfl hx
+  | reset =>
+    cases d with
+    | pull k => simp [cacheStepX, CacheOK]
+    | none => exact cacheStepP6_ok sz u c r h .none
+    | all => exact cacheStepP6_ok sz u c r h .all
+
+theorem cacheSessX_ok (x : ExitAct) (hx : x ≠ .dropIter) (sz : Option Nat) (u : List Item) (st : CacheSt) (h : CacheOK u st) (d : Demand) :
+    CacheOK u (cacheSessX x sz u st d) := by
+  cases st with
+  | unread =>
+    cases d with
+    | none => simpa [cacheSessX] using h
+    | pull k => simpa [cacheSessX] using cacheStepX_ok x hx sz u [] u (by simp) (.pull k)
+    | all => simpa [cacheSessX] using cacheStepX_ok x hx sz u [] u (by simp) .all
+  | prog c r =>
+    cases d with
+    | none => simpa [cacheSessX] using h
+    | pull k => simpa [cacheSessX] using cacheStepX_ok x hx sz u c r h (.pull k)
+    | all => simpa [cacheSessX] using cacheStepX_ok x hx sz u c r h .all
+  | done c =>
+    cases d <;> simpa [cacheSessX] using h
+
+theorem cacheOK_view (sz : Option Nat) (prot : Bool) (u : List Item) (st : CacheSt) (h : CacheOK u st) :
+    nodeView (.cache sz prot st) u = u := by
+  cases st <;> simpa [nodeView, CacheOK] using h
+
+/-- every history of sessions (complete, abandoned after any k, never started), whatever runs at an abandon as long as it is
+nothing or the handler's reset: the buffer invariant holds afterwards and the next read delivers the upstream sequence -/
+theorem cache_abandon_history' (x : ExitAct) (hx : x ≠ .dropIter) (sz : Option Nat) (prot : Bool) (u : List Item) :
+    ∀ (ds : List Demand) (st : CacheSt), CacheOK u st →
+      CacheOK u (ds.foldl (cacheSessX x sz u) st) ∧ nodeView (.cache sz prot (ds.foldl (cacheSessX x sz u) st)) u = u
+  | [], st, h => ⟨h, cacheOK_view sz prot u st h⟩
+  | d :: ds, st, h => by
+    simpa using cache_abandon_history' x hx sz prot u ds _ (cacheSessX_ok x hx sz u st h d)
+
+/-- a `finally: self._iter = None` around the fill loop: one abandoned read leaves a truncated cache that is served for ever -/
+theorem cache_finally_counterexample' :
+    cacheSessX .dropIter (some 2) [1, 2, 3] .unread (.pull 1) = .done [1, 2] ∧
+    nodeView (.cache (some 2) false (cacheSessX .dropIter (some 2) [1, 2, 3] .unread (.pull 1))) [1, 2, 3] = [1, 2] ∧
+    nodeView (.cache (some 2) false (cacheSessX .nothing (some 2) [1, 2, 3] .unread (.pull 1))) [1, 2, 3] = [1, 2, 3] := by
+  refine ⟨rfl, by decide, by decide⟩
+
+
 end Coba.C04
